@@ -474,27 +474,19 @@ example : (match checkModuleTree Graph.new witnessMods with
     | .ok out => fullName out.g ⟨4, 6⟩ | _ => .err .notDefined) =
     .ok [.id PKG, .id 4, .id 3, .id 6] := by decide
 
-/-
-  Full statement of "every function is retrievable from Rust by its module
-  path": for every runtime, `get_function("<path>.<f>")` returns the function
-  `f` of module `pkg.<path>`.  Proved below for runtimes *without registered
-  modules* (`get_function_spec_partial`); missing: the table of a runtime with
-  registered modules also holds their functions, whose names are proved distinct
-  from script functions only through the correspondence run (a registered module
-  named `pkg` makes `declare_modules` fail, any other name gives another prefix).
--/
-
-/-- **T5 (retrieval).** For a script checked against a runtime without
-    registered modules, `get_function("path'.f")` — the lookup of `pkg.path'.f` in
-    the table of compiled functions of the final graph — returns the function `f`
-    declared in the module whose path is `pkg.path'`: the right one, whatever
-    same-named functions other modules declare. -/
-theorem get_function_spec_partial (ms : List Module) (out : Outcome)
-    (h : checkModuleTree Graph.new ms = .ok out)
+/-- **T5 (retrieval).** Every function is retrievable from Rust by its module
+    path: after a successful `check_module_tree` on top of any registered
+    runtime modules `rt`, `get_function("path'.f")` — the lookup of `pkg.path'.f`
+    in the table of compiled functions of the final graph — returns the function
+    `f` declared in the module whose path is `pkg.path'`: the right one, whatever
+    same-named functions other script modules or registered modules declare. -/
+theorem get_function_spec (rt ms : List Module) (g0 : Graph) (m0 : List Nat) (out : Outcome)
+    (h0 : declareModules rt [] Graph.new = .ok (g0, m0))
+    (h : checkModuleTree g0 ms = .ok out)
     (i : Nat) (m : Module) (path' : List Name) (f tag : Nat) (body : Block)
     (hm : ms[i]? = some m) (hp : PathTo ms i (PKG :: path')) (hf : Item.fn f tag body ∈ m.items) :
     getFunction out.g (path' ++ [f]) = some tag :=
-  getFunction_spec h hm hp hf
+  getFunction_spec_rt h0 h hm hp hf
 
 -- `get_function("bb.aa.ff")` on the witness tree is #102, `get_function("aa.ff")` is #101
 example : (match checkModuleTree Graph.new witnessMods with
